@@ -144,6 +144,20 @@ def run(shard, ctx):
                 ctx.check("note: diminish lowers by one semitone on the same letter and augment undoes it",
                           ok2 and (y.name, y.octave) == (n, o), {"note": [n, o]}, [n, o], [y.name, y.octave], mechanism="dim-aug")
         ctx.note_exhaustive("names on %s x octaves %s x shorthands of size 0..11 x up/down" % (shard["letter"], shard["octaves"]), cnt)
+        # octaves far beyond anything audible (the pitch number no longer fits a float exactly)
+        for o in (2 ** 53 + 1, 10 ** 16 + 1, 2 ** 70 + 3, 123456789012345678901):
+            for n in names[::3]:
+                for sh in ("1", "b2", "3", "4", "#4", "5", "b7", "7"):
+                    for up in (True, False):
+                        x = Note(n, o)
+                        base = own_int(x)
+                        st, r = ctx.call(x.transpose, sh, up)
+                        size = T.shorthand_size(sh)
+                        exp_i = base + size if up else base - size
+                        ctx.check("note: pitch number moves by exactly the interval's size", st == "ok" and own_int(x) == exp_i and int(x) == exp_i,
+                                  {"note": [n, "octave %d" % o], "interval": sh, "up": up}, str(exp_i), [x.name, str(x.octave)],
+                                  mechanism="semitones-huge-octave:" + ("up" if up else "down"))
+                        ctx.case(("note-huge", n, o, sh, up))
         x = Note(shard["letter"], 4)
         x.transpose("b7")
         ctx.sample({"Note('%s',4).transpose('b7')" % shard["letter"]: repr(x)})
@@ -152,6 +166,14 @@ def run(shard, ctx):
         shs = [s for s in T.all_shorthands(1) if 0 <= T.shorthand_size(s) <= 11]
         for ti in range(shard["n"]):
             t = MU.random_track(rng, acc=1, lo=24, hi=84)
+            if rng.random() < 0.3:
+                # an instrument is attached and some notes sit at the edge of its range (transposition is not an addition: it
+                # applies whatever the instrument could play)
+                from mingus.containers.instrument import Piano, Guitar, MidiInstrument
+                t.instrument = rng.choice([Piano, Guitar, MidiInstrument])()
+                pool = [n for b in t.bars for e in b.bar if e[2] is not None for n in e[2].notes]
+                for n in rng.sample(pool, min(len(pool), 3)):
+                    n.name, n.octave = rng.choice([("A", 8), ("B", 8), ("F", 0), ("E", 3), ("E", 7), ("C", 0)])
             if rng.random() < 0.3 and t.bars:
                 # a bar whose containers are built *from* containers already in the track (copies must be independent)
                 src = [e for b in t.bars for e in b.bar if e[2] is not None]
